@@ -447,6 +447,9 @@ func Picks(cs []Choice) []int {
 type SeedStep struct {
 	Proc   string
 	Accept func(a *Attempt) bool
+	// AllowDev: the step may use environment deviations (e.g. a spurious timeout); zero-deviation
+	// attempts are still preferred.
+	AllowDev bool
 }
 
 // Seed advances Init along a scripted real execution ("start from non-initial states too"): the
@@ -467,11 +470,14 @@ func (sys *System) Seed(script []SeedStep) error {
 			return fmt.Errorf("seed step %d: no process %q", i, st.Proc)
 		}
 		var chosen *Attempt
-		for _, a := range sys.Succ(s, p) {
-			a := a
-			if a.Kind == Commit && a.Dev == 0 && (st.Accept == nil || st.Accept(&a)) {
-				chosen = &a
-				break
+		succ := sys.Succ(s, p)
+		for pass := 0; pass < 2 && chosen == nil; pass++ {
+			for _, a := range succ {
+				a := a
+				if a.Kind == Commit && (a.Dev == 0 || (pass == 1 && st.AllowDev)) && (st.Accept == nil || st.Accept(&a)) {
+					chosen = &a
+					break
+				}
 			}
 		}
 		if chosen == nil {
